@@ -133,8 +133,10 @@ def impl(line):
     raw = t[2] == "1"
     with tempfile.TemporaryDirectory() as td:
         paths = []
+        nf = len(t[3])
         for i, f in enumerate(t[3]):
-            p = os.path.join(td, f"f{i}.bin")
+            # names whose sorted order is not the order given (rows follow the order given)
+            p = os.path.join(td, f"f{(nf - 1 - i) if nf > 1 else 0}_{'ba'[i % 2]}.bin")
             with open(p, "wb") as fh:
                 fh.write(b"".join(unhx(c) for c in f))
             paths.append(p)
